@@ -63,6 +63,11 @@ pub struct ElfSpec {
     /// a second PROGBITS+ALLOC+EXECINSTR section AFTER .text (the first one must be used)
     #[serde(default)]
     pub decoy_after: bool,
+    /// how the .dynamic section designates its string table: 0 sh_link -> .dynstr (normal), 1 sh_link = 0
+    /// (found by name only), 2 sh_link -> .shstrtab (a string table, but the wrong one), 3 sh_link correct
+    /// but the table is not named ".dynstr" (found through the link only)
+    #[serde(default)]
+    pub dyn_link: u8,
 }
 
 #[derive(Debug, Clone)]
@@ -215,7 +220,7 @@ pub fn build(spec: &ElfSpec) -> Built {
     // shstrtab
     let mut shstr: Vec<u8> = vec![0];
     let mut names = std::collections::BTreeMap::new();
-    for n in [".rodata", ".text2"] {
+    for n in [".rodata", ".text2", ".dynst2"] {
         names.insert(n, shstr.len());
         shstr.extend_from_slice(n.as_bytes());
         shstr.push(0);
@@ -365,8 +370,21 @@ pub fn build(spec: &ElfSpec) -> Built {
                     ".text2" => (names[".text2"], SHT_PROGBITS, SHF_ALLOC | SHF_EXECINSTR, shstr_off, shstr.len(), 0, 1, 0),
                     ".note.gnu.build-id" => (names[".note.gnu.build-id"], SHT_NOTE, SHF_ALLOC, note_off, notes.len(), 0, note_align, 0),
                     ".shstrtab" => (names[".shstrtab"], SHT_STRTAB, 0, shstr_off, shstr.len(), 0, 1, 0),
-                    ".dynamic" => (names[".dynamic"], SHT_DYNAMIC, SHF_ALLOC | 1, dyn_off, n_dyn * dyn_ent, dynstr_idx, 8, dyn_ent),
-                    _ => (names[".dynstr"], SHT_STRTAB, SHF_ALLOC, dynstr_off, dynstr.len(), 0, 1, 0),
+                    ".dynamic" => (
+                        names[".dynamic"],
+                        SHT_DYNAMIC,
+                        SHF_ALLOC | 1,
+                        dyn_off,
+                        n_dyn * dyn_ent,
+                        match spec.dyn_link % 4 {
+                            1 => 0,
+                            2 => shstrndx,
+                            _ => dynstr_idx,
+                        },
+                        8,
+                        dyn_ent,
+                    ),
+                    _ => (names[if spec.dyn_link % 4 == 3 { ".dynst2" } else { ".dynstr" }], SHT_STRTAB, SHF_ALLOC, dynstr_off, dynstr.len(), 0, 1, 0),
                 };
                 let n = |f: &str| format!("sh{i}({sname}).{f}");
                 w.put(&n("sh_name"), name as u64, 4);
